@@ -63,10 +63,11 @@ impl Zeroconf {
             final(self).accept_unsolicited == old(self).accept_unsolicited, final(self).my_intfs == old(self).my_intfs,
             forall|x: u64| final(self).timers@.count(x) >= old(self).timers@.count(x),
     { unimplemented!() }
+    // builds the ResolvedService of an instance from the cache (C03; closure / dyn Any code, not under contract)
     #[verifier::external_body]
-    pub fn resolve_updated_instances(&mut self, updated_instances: &HashSet<String>)
-        ensures final(self).cache.stored() == old(self).cache.stored(), final(self).cache.told() == old(self).cache.told(), forall|x: u64| final(self).timers@.count(x) >= old(self).timers@.count(x),
-    { unimplemented!() }
+    pub fn resolve_service_from_cache(&self, ty_domain: &str, fullname: &str) -> (r: Result<ResolvedService>) { unimplemented!() }
+    #[verifier::external_body]
+    pub fn notify_service_removal(&self, expired: HashMap<String, HashSet<String>>) { unimplemented!() }
 }
 // what C04 / C17 / C20 say about accepting a packet's new records; `ans` are the answers that were not already expired,
 // n bounds the prefix looked at
@@ -85,3 +86,28 @@ pub open spec fn has_ptr(ans: Seq<DnsRecordBox>, n: int) -> bool { exists|i: int
 pub fn vx_contains_str<V>(m: &HashMap<String, V>, k: &str) -> (r: bool)
     ensures r == (exists|key: String| key@ == k@ && m@.contains_key(key)),
 { unimplemented!() }
+impl DnsCache {
+    #[verifier::external_body]
+    pub fn all_ptr(&self) -> (r: &HashMap<String, Vec<DnsRecordIntf>>) { unimplemented!() }
+}
+impl ResolvedService {
+    #[verifier::external_body]
+    pub fn is_valid(&self) -> (r: bool) { unimplemented!() }
+}
+// `records.iter().filter(|r| !r.record.expires_soon(now))`
+#[verifier::external_body]
+pub fn vx_not_expiring<'a>(records: &'a Vec<DnsRecordIntf>, now: u64) -> (r: Vec<&'a DnsRecordIntf>) { unimplemented!() }
+// &str lookups / removals on a HashSet<String> (Borrow<str>)
+#[verifier::external_body]
+pub fn vx_set_contains_str(s: &HashSet<String>, k: &str) -> (r: bool)
+    ensures r == (exists|key: String| key@ == k@ && s@.contains(key)),
+{ unimplemented!() }
+#[verifier::external_body]
+pub fn vx_set_remove_str(s: &mut HashSet<String>, k: &str) -> (r: bool)
+    ensures
+        forall|key: String| #[trigger] final(s)@.contains(key) ==> old(s)@.contains(key) && key@ != k@,
+        forall|key: String| #[trigger] old(s)@.contains(key) && key@ != k@ ==> final(s)@.contains(key),
+{ unimplemented!() }
+// `map.entry(k).or_insert_with(HashSet::new).insert(v)`
+#[verifier::external_body]
+pub fn vx_map_set_insert(m: &mut HashMap<String, HashSet<String>>, k: String, v: String) { unimplemented!() }
